@@ -6,7 +6,7 @@ PY = "/venv/bin/python"
 ROOT = os.path.dirname(os.path.dirname(os.path.abspath(__file__)))
 
 
-def run_workers(target, job, nshards=8, hashseeds=(0,), timeout=7200):
+def run_workers(target, job, nshards=8, hashseeds=(0,), timeout=7200, collect=()):
     fd, jobfile = tempfile.mkstemp(prefix="xdv-job-", suffix=".pickle")
     with os.fdopen(fd, "wb") as fh:
         pickle.dump(job, fh)
@@ -19,6 +19,7 @@ def run_workers(target, job, nshards=8, hashseeds=(0,), timeout=7200):
                                      stdout=subprocess.PIPE, stderr=subprocess.PIPE, text=True)
                 procs.append((hs, sh, p))
         fails, stats, samples = [], collections.Counter(), []
+        extra = {k: {} for k in collect}
         for hs, sh, p in procs:
             out, err = p.communicate(timeout=timeout)
             if p.returncode != 0:
@@ -30,6 +31,10 @@ def run_workers(target, job, nshards=8, hashseeds=(0,), timeout=7200):
                 fails.append(f)
             stats.update(r["stats"])
             samples.extend(r.get("samples", []))
+            for k in collect:
+                extra[k][(hs, sh)] = r.get(k, {})
+        if collect:
+            return fails, stats, samples, extra
         return fails, stats, samples
     finally:
         os.remove(jobfile)
